@@ -138,7 +138,7 @@ PROPS = {
         partial=['Props/MachineObjects.lean proves on the whole machine, for every program and every number of steps, that a scope closed to new tasks stays closed and never gains a child (closed_scope_gains_no_child: its lists of children only shrink) and keeps its identity; the rest of the containment invariant (every child of a scope that has been left is done, no code of it runs afterwards) is not proved over all reachable machine states: exact trace correspondence + judge only'],
     ),
     'C05': dict(
-        gen=['Scope'], props=['C05', 'MachineObjects'], model=['Machine/Run', 'Machine/Step', 'Machine/Kernel', 'Judge/Judges', 'Lemmas/KView', 'Lemmas/OView', 'Lemmas/OStepFrames', 'Lemmas/OStep'], harness='c05',
+        gen=['Scope'], props=['C05', 'MachineObjects', 'MachineFailures'], model=['Machine/Run', 'Machine/Step', 'Machine/Kernel', 'Judge/Judges', 'Lemmas/KView', 'Lemmas/OView', 'Lemmas/OStepFrames', 'Lemmas/OStep'], harness='c05',
         trusted_base=KERNEL_TB + MACHINE_TB + ['coroutine skeletons pinned by regenerated templates (context.py, task.py, timing/notification/condition/flag, tracked.py)'],
         assumptions=['valid programs only: the generators avoid usage errors (past at= dates, negative delays, inverting a Moment)'],
         partial=['Props/MachineObjects.lean proves on the whole machine, for every program and every number of steps, that exception objects are never modified (exception_objects_immutable) and that the failures a scope has recorded are never removed or reordered (failures_append_only); prompt_abort (block ends in the time step of the first failure) is not proved: judge + correspondence only'],
@@ -370,7 +370,7 @@ MANIFEST_TEXT = {
         technique='Lean 4 theorems (decision logic / per-primitive / frame level) + exact whole-machine differential traces + Lean trace judge',
         design_ref='6 (C04), 3, 4.B'),
     'C05': dict(
-        level="On the whole machine, for every program and every number of steps: exception_objects_immutable, failures_append_only (Props/MachineObjects.lean). Lean 4 theorems: collect_spec, propagate_eq, concurrent_content (exact children, in order, never cancellations/closures, only when the body has no exception of its own), body_exception_wins, privileged_first, privileged_body_propagates over the translated decision logic and tuples. The executable whole-machine model reproduces the real usim to the turn on scope trees and random valid programs with faults at every activation boundary; the Lean judge checks on every implementation trace: content and order of every caught Concurrent against the children's recorded failures, privileged unwrapping, exit time = first failure time.",
+        level="What a scope records as a failure, for every world (Props/MachineFailures.lean): childFinished_failed_records (exactly the childs exception object, at the end of the list of its own scope), childFinished_ok_records_nothing (success, cancellation, closure add nothing). On the whole machine, for every program and every number of steps: exception_objects_immutable, failures_append_only (Props/MachineObjects.lean). Lean 4 theorems: collect_spec, propagate_eq, concurrent_content (exact children, in order, never cancellations/closures, only when the body has no exception of its own), body_exception_wins, privileged_first, privileged_body_propagates over the translated decision logic and tuples. The executable whole-machine model reproduces the real usim to the turn on scope trees and random valid programs with faults at every activation boundary; the Lean judge checks on every implementation trace: content and order of every caught Concurrent against the children's recorded failures, privileged unwrapping, exit time = first failure time.",
         note='trusted: Lean kernel + standard axioms; templates/translator; whole-machine model tied by exact traces; prompt_abort (block ends in the time step of the first failure) is not proved: judge + correspondence only',
         technique='Lean 4 theorems (decision logic / per-primitive / frame level) + exact whole-machine differential traces + Lean trace judge',
         design_ref='6 (C05), 3, 4.B'),
